@@ -171,6 +171,34 @@ def run(chk):
                         why = "unknown field %r was not re-emitted unchanged" % k
         if why:
             chk.violate({"kind": "property", "case": lib.show_case(c), "impl": i[:1500], "explanation": why})
+    # optional fields held through POINTERS (nil = absent): marshalling never panics, a nil pointer writes nothing, a
+    # non-nil one writes the value's own rendering (the decoder does not fill pointer fields, so no round trip here)
+    pc, pw = [], []
+    for _ in range(chk.n(400, 8000)):
+        mask = "".join(rng.choice("01") for _ in range(5))
+        ver = rng.choice([b"1.0-1", b"2:0.9~rc1", b"3"]); dep = rng.choice([b"foo (>= 1.0), bar | baz [amd64]", b"libc6"]); arch = rng.choice([b"amd64", b"linux-any", b"any"])
+        text = rng.choice([b"hello", b"two words", b""]); num = str(rng.choice([0, 7, -3])).encode()
+        pc.append(("cptr", [mask.encode(), ver, dep, arch, text, num]))
+        want = b"Package: foo\n"
+        if mask[0] == "1":
+            want += b"Version: " + ver + b"\n"
+        if mask[1] == "1":
+            want += b"Depends: " + dep + b"\n"
+        if mask[2] == "1":
+            want += b"Architecture: " + arch + b"\n"
+        if mask[3] == "1" and text:
+            want += b"X-Comment: " + text + b"\n"
+        if mask[4] == "1":
+            want += b"Count: " + num + b"\n"
+        want += b"Section: misc\n"
+        pw.append("ok " + hx(want))
+    pi = chk.run_impl(pc)
+    chk.record("pointer-fields", pc, pi)
+    for c, i, w in zip(pc, pi, pw):
+        if i != w:
+            chk.violate({"kind": "property", "case": lib.show_case(c), "impl": i[:600], "expected": w[:600],
+                         "explanation": "marshalling a struct whose optional fields are pointers panicked, failed, or did not write exactly the non-nil fields" if i != "panic"
+                         else "marshalling a supported type panicked (nil pointer field)"})
     # required field absent on input is an error; decoding of arbitrary documents agrees with the model
     docs = []
     for tname, fields in PROBES.items():
